@@ -108,6 +108,7 @@ type wop struct {
 // ---- subscribers -----------------------------------------------------------
 
 type sub struct {
+	slow        bool // timeout mode: a peer that takes a quarter of the send timeout to accept each of its first responses (never one timeout)
 	idx         int
 	paths       [][]string
 	updatesOnly bool
@@ -452,6 +453,13 @@ func newTrial(r *vlib.Run, mode string, num int, rng *rand.Rand, scale int) *tri
 				s.pattern = pNever
 			default:
 				s.pattern = []int{pNever, pNever, pPermanent}[rng.Intn(3)]
+			}
+			// A merely slow peer: each of its first sends takes a quarter of the send
+			// timeout, ten of them two and a half timeouts. No single send stays
+			// blocked for the timeout, so the subscription must not be ended (a
+			// termination is confirmed at x6 and x30 like any other suspicion).
+			if mode == "timeout" && s.pattern == pNever && rng.Intn(2) == 0 {
+				s.slow = true
 			}
 		}
 		// Which response is held: relative to the predicted position of the
@@ -896,6 +904,10 @@ func (t *trial) prep(s *sub) {
 		}
 		s.qs[i] = q
 		s.mu.Unlock()
+		if s.slow && i < 10 {
+			t.r.Count("slow_peer_sends_delayed_by_a_quarter_timeout", 1)
+			time.Sleep(t.timeout / 4)
+		}
 		if s.pattern != pNever && i == s.gateAt && atomic.LoadInt32(&s.released) == 0 {
 			s.gatedOnSync = m.GetSyncResponse()
 			s.enteredTick = t.now()
